@@ -294,6 +294,48 @@ func c15StructuredCase(rt *rapid.T, rec *vt.Rec) {
 		rt.Fatalf("client connect: %v", err)
 	}
 	time.Sleep(time.Duration(rapid.Int64Range(0, int64(90*time.Second)).Draw(rt, "age")))
+	// with a minimum balance of 0: a billed client's update takes the pool through its low-balance path (the pool
+	// asks the client's hosts to disconnect it) -- also when the host's connection is gone by then. That update is a
+	// request like any other: it must be answered.
+	if c15MinBalance == 0 && rapid.Bool().Draw(rt, "lowBalanceUpdate") {
+		hostID, cliID := s.agents[0].id.nodeID, s.agents[1].id.nodeID
+		if _, err := s.update(0, []string{cliID}, 1, false, true); err != nil {
+			rt.Fatalf("host update: %v", err)
+		}
+		if _, err := s.update(1, []string{hostID}, 1, false, true); err != nil && classifyErr(err).Kind != "lowbalance" {
+			rt.Fatalf("client update: %v", err)
+		}
+		time.Sleep(time.Duration(rapid.IntRange(30, 100).Draw(rt, "billedSeconds")) * time.Second)
+		if _, err := s.update(0, []string{cliID}, 2, false, true); err != nil {
+			rt.Fatalf("host update: %v", err)
+		}
+		hostGone := rapid.Bool().Draw(rt, "hostConnectionGone")
+		if hostGone {
+			s.closeConn(hostConn)
+			synctest.Wait()
+		}
+		c15Tick(fmt.Sprintf("billed client's update on the low-balance path (host connection gone: %v)", hostGone))
+		errCh := make(chan error, 1)
+		go func() {
+			_, err := s.update(1, []string{hostID}, 2, false, true)
+			errCh <- err
+		}()
+		var err error
+		select {
+		case err = <-errCh:
+		case <-time.After(2 * time.Minute):
+			// (the request's goroutine is stuck in the pool for good, so the bubble cannot end cleanly: say why first)
+			fmt.Printf("C15 FAILURE DETAIL: the vipnode_update of a client below the minimum balance (host connection gone: %v) got no reply within 2 virtual minutes\n", hostGone)
+			rt.Fatalf("the vipnode_update of a client below the minimum balance (host connection gone: %v) got no reply within 2 virtual minutes", hostGone)
+		}
+		if k := classifyErr(err).Kind; err != nil && k != "lowbalance" {
+			rt.Fatalf("the update of a client below the minimum balance (host connection gone: %v) was not answered with the low-balance error or a result: %v", hostGone, err)
+		}
+		if p := sh.firstPanic(); p != "" {
+			rt.Fatalf("low-balance update made the pool panic:\n%s", p)
+		}
+		rec.Count(fmt.Sprintf("structured:low-balance-update:refused=%v:hostGone=%v", err != nil, hostGone), 1)
+	}
 	rc := dialRaw(sh, s.pool.CloseRemote)
 	defer rc.close()
 	_ = synctest.Wait
@@ -650,6 +692,7 @@ func c15ReplyCase(rt *rapid.T, rec *vt.Rec) {
 }
 
 func TestC15HostileReplies(t *testing.T) {
+	defer vt.Watch("TestC15HostileReplies", 120*time.Second)()
 	rec := vt.For("C15")
 	rec.Rule("T3 replies: a real Remote (plain Call, every pool.RemotePool method, Agent.UpdatePeers on top of it) waits for a reply and the far end answers with generated hostile replies (no result, both result and error, null/empty/mistyped error objects, wrong result types, huge numbers, duplicate keys, hostile peer/URI lists) preceded by unsolicited replies with unknown/string/float/null ids and optionally duplicated; oracle: no panic, the caller returns (error or not) within 20 virtual seconds; distinct by (caller, reply, noise)")
 	rapid.Check(t, func(rt *rapid.T) {
